@@ -24,9 +24,11 @@ pub mod c13;
 pub mod c20;
 pub mod c21;
 pub mod c22;
+pub mod c02;
+pub mod c03;
 
 use crate::kit::core::Scenario;
 
 pub fn registry() -> Vec<Box<dyn Scenario>> {
-    vec![Box::new(c22::C22), Box::new(c21::C21), Box::new(c20::C20), Box::new(c13::C13), Box::new(c12::C12), Box::new(c11::C11), Box::new(c05::C05), Box::new(c04::C04), Box::new(c32::C32), Box::new(c29::C29), Box::new(c28::C28), Box::new(c24::C24), Box::new(c23::C23), Box::new(c19::C19), Box::new(c15::C15), Box::new(c14::C14), Box::new(c06::C06), Box::new(c07::C07), Box::new(c08::C08), Box::new(c09::C09), Box::new(c16::C16), Box::new(c17::C17), Box::new(c18::C18), Box::new(c30::C30), Box::new(c31::C31), Box::new(c33::C33)]
+    vec![Box::new(c03::C03), Box::new(c02::C02), Box::new(c22::C22), Box::new(c21::C21), Box::new(c20::C20), Box::new(c13::C13), Box::new(c12::C12), Box::new(c11::C11), Box::new(c05::C05), Box::new(c04::C04), Box::new(c32::C32), Box::new(c29::C29), Box::new(c28::C28), Box::new(c24::C24), Box::new(c23::C23), Box::new(c19::C19), Box::new(c15::C15), Box::new(c14::C14), Box::new(c06::C06), Box::new(c07::C07), Box::new(c08::C08), Box::new(c09::C09), Box::new(c16::C16), Box::new(c17::C17), Box::new(c18::C18), Box::new(c30::C30), Box::new(c31::C31), Box::new(c33::C33)]
 }
